@@ -15,7 +15,12 @@ pub(crate) struct Namespace {
 
 impl Object for Namespace {
     fn get_value(self: &Arc<Self>, key: &Value) -> Option<Value> {
-        self.data.lock().unwrap().get(some!(key.as_str())).cloned()
+        // only string values are keys: bytes that hold utf-8 are never equal to a string
+        self.data
+            .lock()
+            .unwrap()
+            .get(some!(key.as_key_str()))
+            .cloned()
     }
 
     fn enumerate(self: &Arc<Self>) -> Enumerator {
